@@ -22,14 +22,15 @@ type Case struct {
 // BatchSpec tells a child which cases to generate and run. Cases are a pure function of
 // (Seed, Kind, index), so the parent can resume a batch after a child died.
 type BatchSpec struct {
-	Name    string   `json:"name"`
-	Kind    string   `json:"kind"` // smoke grid ops comp
-	Seed    int64    `json:"seed"`
-	Count   int      `json:"count"`
-	From    int      `json:"from"`
-	Quar    []string `json:"quar"`
-	CurFile string   `json:"cur_file"`
-	OutFile string   `json:"out_file"`
+	Name     string   `json:"name"`
+	Kind     string   `json:"kind"` // smoke grid ops comp
+	Seed     int64    `json:"seed"`
+	Count    int      `json:"count"`
+	From     int      `json:"from"`
+	Quar     []string `json:"quar"`
+	CurFile  string   `json:"cur_file"`
+	PendFile string   `json:"pend_file"`
+	OutFile  string   `json:"out_file"`
 	// suspicion thresholds (not deciding: a suspect is re-run alone)
 	WatchMs  int   `json:"watch_ms"`
 	Ratio    int64 `json:"ratio"`
@@ -199,6 +200,9 @@ func runBatchChild() {
 		}
 	}
 	real := NewReal(rand.New(rand.NewSource(spec.Seed+99)), quar)
+	if spec.PendFile != "" {
+		real.pendFile, _ = os.OpenFile(spec.PendFile, os.O_CREATE|os.O_WRONLY, 0o644)
+	}
 	ends := map[string]int{}
 	shrunkPerKey := map[string]int{}
 	var samples []any
@@ -261,6 +265,7 @@ type SoloSpec struct {
 	Ratio    int64  `json:"ratio"`
 	MemLimit int64  `json:"mem_limit"`
 	OutFile  string `json:"out_file"`
+	PendFile string `json:"pend_file"`
 	Shrink   bool   `json:"shrink"`
 }
 
@@ -277,6 +282,9 @@ func runSoloChild() {
 	}
 	cfg := watchCfg{watch: time.Duration(spec.WatchMs) * time.Millisecond, ratio: spec.Ratio, memLimit: uint64(spec.MemLimit)}
 	real := NewReal(rand.New(rand.NewSource(7)), nil)
+	if spec.PendFile != "" {
+		real.pendFile, _ = os.OpenFile(spec.PendFile, os.O_CREATE|os.O_WRONLY, 0o644)
+	}
 	var end string
 	t0 := time.Now()
 	why := guarded(cfg, &spec.Case, func() { end = real.RunCase(&spec.Case.Expr, spec.Case.Env) })
